@@ -1296,6 +1296,11 @@ def _from_text(
         except dns.zonefile.UnknownOrigin:
             # for backwards compatibility
             raise UnknownOrigin
+    if zone.origin is None:
+        # No origin was given and the text had neither a $ORIGIN nor a record
+        # (the reader refuses records without an origin): such a zone could
+        # not even be written back.
+        raise UnknownOrigin
     # Now that we're done reading, do some basic checking of the zone.
     if check_origin:
         zone.check_origin()
